@@ -123,3 +123,41 @@ package bytecode
 //@   loop 1 invariant initial: rangeindex == -1 ==> initialEnv(info)
 //@   loop 1 invariant noerror: rangeindex >= 0 ==> info.currentType != PTERROR
 //@   ensures either: (result.1 == nil) != (result.0 == nil)
+
+// ---- relocation of a stored pattern (bytecode.go adjust): pure and exact (C13, C01-R) ----
+// Every absolute program-counter field moves by offset, nothing else changes, and nothing that
+// existed before the call is written (the stored pattern must stay usable for the next reference).
+//@ func (MatchLiteral).adjust [C13 C01]
+//@   ensures result == box(MatchLiteral, i)
+//@ func (MatchCharClass).adjust [C13 C01]
+//@   ensures result == box(MatchCharClass, i)
+//@ func (MatchVariable).adjust [C13 C01]
+//@   ensures result == box(MatchVariable, i)
+//@ func (MatchRange).adjust [C13 C01]
+//@   ensures result == box(MatchRange, i)
+//@ func (FailNotIn).adjust [C13 C01]
+//@   ensures result == box(FailNotIn, i)
+//@ func (EndNotIn).adjust [C13 C01]
+//@   ensures result == box(EndNotIn, i)
+//@ func (StartVarDec).adjust [C13 C01]
+//@   ensures result == box(StartVarDec, i)
+//@ func (EndVarDec).adjust [C13 C01]
+//@   ensures result == box(EndVarDec, i)
+//@ func (EndSubroutine).adjust [C13 C01]
+//@   ensures result == box(EndSubroutine, i)
+//@ func (CallSubroutine).adjust [C13 C01]
+//@   ensures result == box(CallSubroutine, mk(CallSubroutine, i.Name, i.ToPC + offset))
+//@ func (Jump).adjust [C13 C01]
+//@   ensures result == box(Jump, mk(Jump, i.NewProgramCounter + offset))
+//@ func (StartNotIn).adjust [C13 C01]
+//@   ensures result == box(StartNotIn, mk(StartNotIn, i.NextCheckpointPC + offset))
+//@ func (StartLoop).adjust [C13 C01]
+//@   ensures result == box(StartLoop, mk(StartLoop, i.Id, i.MinLoops, i.MaxLoops, i.Fewest, i.ExitLoop + offset, i.Name))
+//@ func (StopLoop).adjust [C13 C01]
+//@   ensures result == box(StopLoop, mk(StopLoop, i.Id, i.MinLoops, i.MaxLoops, i.Fewest, i.StartLoop + offset, i.Name))
+//@ func (StartSubroutine).adjust [C13 C01]
+//@   ensures result == box(StartSubroutine, mk(StartSubroutine, i.Id + offset, i.Name, i.EndOffset + offset))
+//@ func (Branch).adjust [C13 C01]
+//@   ensures kind: result is Branch && len((result as Branch).Branches) == len(i.Branches)
+//@   ensures shifted: forall k :: { (result as Branch).Branches[k] } 0 <= k && k < len(i.Branches) ==> (result as Branch).Branches[k] == old(i.Branches[k]) + offset
+//@   ensures pure: forall k :: { i.Branches[k] } 0 <= k && k < len(i.Branches) ==> i.Branches[k] == old(i.Branches[k])
